@@ -58,6 +58,7 @@ def run(spec, oracle):
         "user_atol_option": int(bool(p.notes.get("user_atol"))),
         "levels_exactly_atol_apart": int(bool(p.notes.get("atol_boundary"))),
         "big_symbolic_block": int(bool(spec.get("big_symbolic_block"))),
+        "disguised_degeneracy": int(bool(p.notes.get("disguised_degeneracy"))),
         "degenerate_kept_pairs": int(any(p.E[i] == p.E[j] for i in range(p.N) for j in range(i))),
     }
     nontrivial = oracles.perturbation_couples_eliminated(p) and spec["max_total"] >= 2
@@ -71,7 +72,7 @@ def finalize_common(c, tier, evaluations, distinct):
     need = 40 if tier == "quick" else 300
     if distinct < need:
         reasons.append(f"only {distinct} distinct non-trivial cases (< {need})")
-    for k in ("vtype_dense", "vtype_sparse", "vtype_sympy", "sel_mask", "sel_fd_some", "sel_none", "blocks_3", "params_2", "sylvester_dense", "sylvester_sparse", "sylvester_sympy", "tiny_units_with_atol", "user_atol_option", "levels_exactly_atol_apart", "big_symbolic_block"):
+    for k in ("vtype_dense", "vtype_sparse", "vtype_sympy", "sel_mask", "sel_fd_some", "sel_none", "blocks_3", "params_2", "sylvester_dense", "sylvester_sparse", "sylvester_sympy", "tiny_units_with_atol", "user_atol_option", "levels_exactly_atol_apart", "big_symbolic_block", "disguised_degeneracy"):
         if c.get(k, 0) < 3:
             reasons.append(f"class/monitor {k} observed only {c.get(k, 0)} times")
     return reasons
